@@ -65,6 +65,30 @@ func c15Gen(r *rand.Rand) c15Case {
 		}
 		t.Streams = append(t.Streams, s)
 	}
+	if r.Intn(8) == 0 {
+		// one container only (or none named at all), split over several streams whose entries interleave in
+		// time, or a single stream handed over unsorted: the order of the output is by timestamp all the same
+		name, has := "web", r.Intn(4) != 0
+		if !has {
+			name = ""
+		}
+		t.Streams = nil
+		var all []c15Entry
+		for j, m := 0, 2+r.Intn(7); j < m; j++ {
+			ts := uint64(1700000000e9) + uint64(j)*500000000 + uint64(r.Intn(3))
+			all = append(all, c15Entry{T: ts, V: []byte(fmt.Sprintf("m%d", j))})
+		}
+		r.Shuffle(len(all), func(a, b int) { all[a], all[b] = all[b], all[a] })
+		k := 1 + r.Intn(3)
+		for i := 0; i < k; i++ {
+			t.Streams = append(t.Streams, c15Stream{Container: name, HasContainer: has})
+		}
+		for _, e := range all {
+			i := r.Intn(k)
+			t.Streams[i].Entries = append(t.Streams[i].Entries, e)
+		}
+		return t
+	}
 	if len(t.Streams) > 0 && r.Intn(5) == 0 {
 		// an exact duplicate entry (equal timestamp, same container and message): order is immaterial
 		s := &t.Streams[r.Intn(len(t.Streams))]
